@@ -20,6 +20,13 @@ func main() {
 			os.Exit(2)
 		}
 		extract(os.Args[2], os.Args[3])
+	case "enumcount": // size of the exhaustive small-scope part of the thorough tier
+		n, ops := 0, 0
+		for _, c := range enumCases() {
+			n++
+			ops += len(c.Lines)
+		}
+		fmt.Println("exhaustive scripts:", n, "lines:", ops)
 	case "corr":
 		corr.Main(spec(), os.Args[2:])
 	default:
